@@ -52,6 +52,12 @@ FIXED = [
      "dense online: binary operations raised TypeError ('float' object is not subscriptable) when one operand's first interval lies before the other operand's first sample"),
     ('F06', ['C10'], 'fix: reset() of online monitors failed',
      'reset(): AttributeError with sub-specifications, AttributeError before the first update, no reset at all for dense time (operations kept their buffers)'),
+    ('F10a', ['C13'], 'fix: sampling-violation counter compared time-stamp gaps with the period in the wrong unit',
+     'sampling_violation_counter compared gaps (in the default unit) with the bare number of the period: period 500 ms, unit s, stamps 0,0.5,1 counted every gap'),
+    ('F10b', ['C13'], 'fix: StlDiscreteTimeSpecification always reported the online sampling-violation counter',
+     'the combined StlDiscreteTimeSpecification reported the online interpreter counter (0) after evaluate()'),
+    ('F03', ['C11', 'C12'], 'fix: bounded always/eventually padded their operand list in place',
+     "offline bounded always/eventually appended +-inf to the caller's list for short traces; a second evaluate() on the same data differed; get_value(operand) was longer than the trace"),
 ]
 
 OPEN = [
